@@ -519,15 +519,15 @@ def run(ctx):
             nontrivial += 1
             if any(rs[:-1]):
                 rejected_then_more += 1
-    ctx.cov["evaluations"] += len(traces)
+    ctx.cov["evaluations"] += len(todo)  # histories attempted on the real containers
     ctx.cov["traces_validated_against_impl"] += len(traces)
-    for t in (traces[len(hist) // 2], traces[-1]):
+    for t in traces[len(traces) // 2 : len(traces) // 2 + 1] + traces[-1:]:
         ctx.sample({"container": t["c"], "calls": describe(table, [o["i"] for o in t["ops"]]), "raised": [o["r"] for o in t["ops"]]})
     # ---- T3: TLC judges; which Impl configuration does the code conform to? --------------
     def nonconforming(f):
         return sum(1 for bad in f.values() if any(b[0] == "I" for b in bad))
 
-    fails = judge(ctx, "all", tabpath, traces, False)
+    fails = judge(ctx, "all", tabpath, traces, False) if traces else {}
     conforms = "as-written"
     if nonconforming(fails):
         fails_rep = judge(ctx, "all", tabpath, traces, True)
